@@ -132,7 +132,7 @@ def handle (j : Json) : Except String Json := do
     let r := PonyVerif.Model.SharedMemo.run m (PonyVerif.Model.SharedMemo.State.init progs) sched
     let evs := r.2.map (fun e => match e with
       | .none => "none" | .hit => "hit" | .miss => "miss" | .reject => "reject"
-      | .popped _ => "popped" | .stored => "stored")
+      | .popped _ => "popped" | .stored => "stored" | .filled => "filled")
     pure (Json.mkObj [("events", .arr (evs.map Json.str).toArray),
                       ("table", .arr (r.1.table.map (fun kv => jNat kv.1)).toArray)])
   | _ => throw s!"unknown op {op}"
